@@ -54,9 +54,10 @@ type loopInfo struct {
 }
 
 type Enc struct {
-	W  *World
-	fn *ssa.Function
-	fc *FuncContract
+	W         *World
+	closureOf map[string]*ssa.MakeClosure // closure constant -> the instruction that made it (methodvalue())
+	fn        *ssa.Function
+	fc        *FuncContract
 
 	decls   []string
 	declSet map[string]bool
